@@ -550,9 +550,12 @@ class ExecutionPaths(Output):
             filename = dest / self._filename(idx)
             print(f"\t\t check file: {filename}")
 
+            # The path contains the function's copies of the __main__ blocks whereas the CFG printed is made of
+            # the contract's blocks. The block ids are the same for both.
+            path_block_ids = [bb.idx for bb in path]
             config.bb_border_color = (
                 lambda bb: "BLACK"
-                if bb not in path  # pylint: disable=cell-var-from-loop
+                if bb.idx not in path_block_ids  # pylint: disable=cell-var-from-loop
                 else "RED"
             )
             full_cfg_to_dot(self._teal, config, filename)
